@@ -433,6 +433,11 @@ def history_oracle(c, stats=None):
                 # matrix operand: same size for +=/-=, conforming square matrix for *= (refused or done in place, never rebound)
                 one = {"i": 1, "d": 1.0, "z": 1 + 0j}[tc]
                 operand = matrix(one, A.size if s["iop"] != "*=" else (A.size[1], A.size[1]), tc)
+            if s["k"] % 3 == 1 and s["iop"] in ("+=", "-=") and len(A):
+                # sparse operand of the same size: A stays a dense matrix of its type ('d' or 'z'), so the operation is
+                # in place; for an integer A the result type would change and it is refused
+                operand = spmatrix([1.5, -2.0][:min(2, len(A))], [0, A.size[0] - 1][:min(2, len(A))], [0, A.size[1] - 1][:min(2, len(A))],
+                                   A.size, "d")
             B = A
             try:
                 if s["iop"] == "+=":
